@@ -51,7 +51,7 @@ impl cli::Fs for CaseFs<'_> {
         self.0
             .files
             .iter()
-            .find(|f| f.path == p && f.kind == Kind::File)
+            .find(|f| f.path == p && matches!(f.kind, Kind::File | Kind::Fifo))
             .map(|f| f.bytes.0.clone())
     }
 }
@@ -433,6 +433,9 @@ const FILTERS: &[&str] = &[
     "[., (try input catch \"none\")]",
     "[limit(2; inputs)] | length",
     "if . == 1 then ([inputs] | length) else . end",
+    "debug",
+    "debug(\"msg\") | [.]",
+    "., (\"note\\n\" | stderr | empty)",
 ];
 
 const FORMATS_IN: &[&str] = &[
@@ -510,7 +513,13 @@ pub fn gen_case(rng: &mut Rng) -> Case {
             if rng.chance(1, 8) && fmt == "json" {
                 bytes.extend_from_slice(*rng.pick(&[&b"{\"a\":"[..], b"}", b"[1,", b"tru"]));
             }
-            files.push(FileSpec::file(path, bytes, 0o644));
+            // one input file in twelve is a named pipe (`<(cmd)`, `mkfifo`): no size, no mmap, no
+            // seek - the values must be the same as from a regular file with these bytes
+            if rng.chance(1, 12) && bytes.len() < 60_000 {
+                files.push(FileSpec::fifo(path, bytes));
+            } else {
+                files.push(FileSpec::file(path, bytes, 0o644));
+            }
             inv.files.push(arg);
         }
     } else {
@@ -560,7 +569,11 @@ pub fn gen_case(rng: &mut Rng) -> Case {
     let yval = if rng.chance(1, 10) { "{\"k\": [1, 2}" } else { "{\"k\": [1, 2]}" };
     need("y", NamedKind::ArgJson, yval.into());
     if filter.contains("$d") {
-        files.push(FileSpec::file("w/data.json", "1 [2] {\"a\":3}\n", 0o644));
+        if rng.chance(1, 8) {
+            files.push(FileSpec::fifo("w/data.json", "1 [2] {\"a\":3}\n"));
+        } else {
+            files.push(FileSpec::file("w/data.json", "1 [2] {\"a\":3}\n", 0o644));
+        }
         files.push(FileSpec::file("w/broken.json", "1 [2 {\"a\"\n", 0o644));
         let name = match rng.usize(10) {
             0 => "no-such-data.json",
@@ -570,7 +583,11 @@ pub fn gen_case(rng: &mut Rng) -> Case {
         inv.named.push((NamedKind::SlurpFile, "d".into(), name.into()));
     }
     if filter.contains("$r") {
-        files.push(FileSpec::file("w/raw.txt", "line1\nline2 \u{e9}\n", 0o644));
+        if rng.chance(1, 8) {
+            files.push(FileSpec::fifo("w/raw.txt", "line1\nline2 \u{e9}\n"));
+        } else {
+            files.push(FileSpec::file("w/raw.txt", "line1\nline2 \u{e9}\n", 0o644));
+        }
         // one time in eight the named file does not exist: an I/O error, status 2
         let name = if rng.chance(1, 8) { "no-such-raw.txt" } else { "raw.txt" };
         inv.named.push((NamedKind::RawFile, "r".into(), name.into()));
@@ -1072,6 +1089,9 @@ pub fn check(cfg: &Cfg) -> Result<i32, Harness> {
             if case.inv.tty {
                 tally.add("reach:stdout_is_a_terminal");
             }
+            if case.files.iter().any(|f| f.kind == Kind::Fifo) {
+                tally.add("reach:input_from_named_pipe");
+            }
             for f in &h.fired {
                 let kind = f.split(' ').nth(1).unwrap_or("?");
                 tally.add(format!("fired:{kind}"));
@@ -1188,11 +1208,11 @@ pub fn check(cfg: &Cfg) -> Result<i32, Harness> {
         }
     }
     let lib_inconclusive = tally.get("lib_inconclusive");
-    if lib_inconclusive * 20 > n_lib {
+    if violations.is_empty() && lib_inconclusive * 20 > n_lib {
         return Err(Harness(format!("{lib_inconclusive} of {n_lib} library cases inconclusive")));
     }
     let inconclusive = tally.get("inconclusive");
-    if inconclusive * 50 > evaluations {
+    if violations.is_empty() && inconclusive * 50 > evaluations {
         return Err(Harness(format!(
             "{inconclusive} of {evaluations} cases inconclusive: model and tree moved apart"
         )));
